@@ -306,9 +306,10 @@ theorem natParam0_cases (vs : List PVal) (d : Nat) :
   · right; right; exact ⟨hl, hk, by simp [natParam, hv]⟩
 
 /-- whenever the model moves the cursor (the move stays inside the argument list), the code moves it
-    to the same place and raises nothing; the code writes nothing -/
+    to the same place and raises nothing; the code writes nothing. (The cursor of a reachable state is
+    never beyond the end of the arguments: `hpos`.) -/
 theorem move_code_is_the_model (T : EnglishTables) (vs : List PVal) (colon atm : Bool) (st st1 : St)
-    (h : runSimple T .star vs colon atm st = .ok st1) :
+    (hpos : st.pos ≤ st.args.length) (h : runSimple T .star vs colon atm st = .ok st1) :
     dirMove_err { paramIn vs with colon := colon, at_ := atm, argPos := st.pos, len_c_args := st.args.length } = false
     ∧ dirMove_argPos { paramIn vs with colon := colon, at_ := atm, argPos := st.pos, len_c_args := st.args.length } = st1.pos
     ∧ ∀ i : In, dirMove_out i = i.out := by
@@ -335,12 +336,13 @@ theorem move_code_is_the_model (T : EnglishTables) (vs : List PVal) (colon atm :
 
 /-- and when the code raises an error the model rejects the directive too -/
 theorem move_code_error_is_a_model_error (T : EnglishTables) (vs : List PVal) (colon atm : Bool) (st : St)
+    (hpos : st.pos ≤ st.args.length)
     (h : dirMove_err { paramIn vs with colon := colon, at_ := atm, argPos := st.pos, len_c_args := st.args.length } = true) :
     ∃ e, runSimple T .star vs colon atm st = .error e := by
   cases hr : runSimple T .star vs colon atm st with
   | error e => exact ⟨e, rfl⟩
   | ok st1 =>
-    have := (move_code_is_the_model T vs colon atm st st1 hr).1
+    have := (move_code_is_the_model T vs colon atm st st1 hpos hr).1
     rw [this] at h
     exact absurd h (by simp)
 
